@@ -10,7 +10,7 @@
 (*   Canon(n)         XPath 1.0 section 4.2 string(): the string form of the real number n        *)
 (*   OutputGrammar(t) the strings string() may return at all                                      *)
 (*   RoundN/FloorN/CeilN   XPath 1.0 section 4.4 on numerals (exact decimal arithmetic)           *)
-(*   BinaryOf/BitsOf  the exact binary expansion of a numeral; when it fits 53 bits the numeral   *)
+(*   ExactInfo/BitsOf the exact binary expansion of a numeral; when it fits 53 bits the numeral   *)
 (*                    IS a double and BitsOf states its IEEE-754 encoding                        *)
 (*                                                                                               *)
 (* Two facts of IEEE-754 binary64 are used by the trace specification and are part of the        *)
